@@ -238,7 +238,8 @@ def main():
                                     why = "the victim exports datagrams that are not among the datagrams it sent"
                     for key in got:
                         # foreign traffic may leave packets without payload (an empty datagram for a QUIC-looking flow), never bytes
-                        if key not in base and key != vkey and any(f["payload"] for t, f in got[key]):
+                        # (with -a a datagram that reads as an unprotected Version Negotiation packet is exported as metadata: not application data)
+                        if key not in base and key != vkey and "-a" not in args and any(f["payload"] for t, f in got[key]):
                             why = why or "foreign traffic contributes %d payload bytes to the export" % sum(len(f["payload"]) for t, f in got[key])
                 except readback.Bad as e:
                     why = "output unreadable: %s" % e
